@@ -224,6 +224,6 @@ def render (S : Schema) : String := String.join (renderLines S)
 def crcText (d : Decl) : List Char :=
   d.ctor.toList ++ [' '] ++ renderFields false d.fields ++ "= ".toList ++ d.result.toList
 
-def crcOf (d : Decl) : Nat := (Tongo.Crc.crc32 ((crcText d).map (fun c => UInt8.ofNat c.toNat))).toNat
+def crcOf (d : Decl) : Nat := Tongo.Crc.crc32N ((crcText d).map Char.toNat)
 
 end Tongo.Tl
